@@ -69,6 +69,25 @@ DQI *_ZSt4copyIPKiSt21front_insert_iteratorISt5dequeIiSaIiEEEET0_T_S8_S7_(cv_i32
   if (gh_P > dq_front && gh_P - dq_front <= n) dq_trk = first[gh_P - dq_front - 1];
   dq_front += n; dq_len += n; return d; }
 
+/* ---------------------------------------------------------------- (2') std::vector<subreg_t>, array-backed variant (PS_ARRAY_REGS)
+ * for BOUNDED units that need every slot at once (free-list shape): at most PS_ARRAY_REGS slots, all real. */
+#ifdef PS_ARRAY_REGS
+cv_i64 rg_n; SUBREG ar_slots[PS_ARRAY_REGS];
+cv_i64 gh_RH; SUBREG rg_trk, rg_other; cv_i64 rg_other_idx;     /* unused here (kept so that the shared spec text compiles) */
+#define RG_NONE (~0ul)
+#define RG_MODEL_ASSIGNS rg_n, rg_trk, rg_other, rg_other_idx
+#define PS_ENC(T, i) ((T *)(((i) + 1) << 6))
+#define PS_DEC(p) ((((cv_i64)(p)) >> 6) - 1)
+cv_i64 _ZNKSt6vectorIN5cocls9publisherIiE5queue8subreg_tESaIS4_EE4sizeEv(RGV *v) { PS_LOCKCHK(_regs, v, "registrations: size()"); return rg_n; }
+SUBREG *_ZNSt6vectorIN5cocls9publisherIiE5queue8subreg_tESaIS4_EEixEm(RGV *v, cv_i64 i) {
+  PS_LOCKCHK(_regs, v, "registrations: operator[]");
+  __CPROVER_assert(i < rg_n, "std::vector<subreg_t>::operator[]: index in range");
+  return &ar_slots[i]; }
+void _ZNSt6vectorIN5cocls9publisherIiE5queue8subreg_tESaIS4_EE9push_backEOS4_(RGV *v, SUBREG *x) {
+  PS_LOCKCHK(_regs, v, "registrations: push_back");
+  __CPROVER_assert(rg_n < PS_ARRAY_REGS, "model bound: number of registration slots");
+  ar_slots[rg_n] = *x; rg_n++; }
+#else
 /* ---------------------------------------------------------------- (2) std::vector<subreg_t> */
 cv_i64 rg_n;                                      /* size                                                              */
 cv_i64 gh_RH; SUBREG rg_trk;                      /* tracked index and the slot stored there (meaningful iff gh_RH < rg_n) */
@@ -109,6 +128,7 @@ SUBREG *_ZNK9__gnu_cxx17__normal_iteratorIPN5cocls9publisherIiE5queue8subreg_tES
 RGIT *_ZN9__gnu_cxx17__normal_iteratorIPN5cocls9publisherIiE5queue8subreg_tESt6vectorIS5_SaIS5_EEEppEv(RGIT *it) {
   it->_M_current = PS_ENC(SUBREG, PS_DEC(it->_M_current) + 1); return it; }
 
+#endif
 /* ---------------------------------------------------------------- (3) std::vector<awaiter*> */
 AWT *gh_AW;                                       /* the awaiter of interest (arbitrary but fixed, non-null)           */
 cv_i64 wb_cnt, wb_idx;                            /* occurrences of gh_AW pushed since clear(); index of the first one */
